@@ -53,7 +53,6 @@ package server
 
 //@ func applySettingsMap
 //@   props C19
-//@   requires raw != nil
 //@   ensures [hover_dotted] okBool(raw["features.hover"]) ==> result.Features.Hover == boolOf(raw["features.hover"])
 //@   ensures [hover_nested] !okBool(raw["features.hover"]) && typeis(raw["features"], "map[string]interface{}") && okBool(as(raw["features"], "map[string]interface{}")["hover"]) ==> result.Features.Hover == boolOf(as(raw["features"], "map[string]interface{}")["hover"])
 //@   ensures [hover_nested_bool] !typeis(raw["features.hover"], bool) && !typeis(raw["features.hover"], string) && typeis(raw["features"], "map[string]interface{}") && typeis(as(raw["features"], "map[string]interface{}")["hover"], bool) ==> result.Features.Hover == as(as(raw["features"], "map[string]interface{}")["hover"], bool)
@@ -284,3 +283,33 @@ package server
 //@   ensures [C01:closed] !smhas(s.documents, params.TextDocument.URI)
 //@   ensures [C17:cache_dropped] !has(tokenCache.cache, params.TextDocument.URI)
 //@   modifies s.documents, tokenCache.cache[*]
+
+// ---- C19: every configuration change starts from the stored settings ----
+
+//@ func (*Server).getSettings
+//@   props C19
+//@   effects none
+//@   requires s != nil
+//@   ensures [get] result == s.settings
+
+//@ func (*Server).setSettings
+//@   props C19
+//@   requires s != nil
+//@   ensures [C19:stored_maxresults] s.settings.Completion.MaxResults == ite(settings.Completion.MaxResults <= 0, 50, settings.Completion.MaxResults)
+//@   ensures [C19:stored_indent] s.settings.Formatting.IndentSize == ite(settings.Formatting.IndentSize <= 0, 4, settings.Formatting.IndentSize)
+//@   ensures [C19:stored_switches] s.settings.Features == settings.Features && s.settings.Diagnostics == settings.Diagnostics && s.settings.Completion.FuzzyMatching == settings.Completion.FuzzyMatching && s.settings.Formatting.AlignAmounts == settings.Formatting.AlignAmounts
+//@   ensures [C19:stored_positive] s.settings.Completion.MaxResults > 0 && s.settings.Formatting.IndentSize > 0 && s.settings.Limits.MaxIncludeDepth > 0 && s.settings.Limits.MaxFileSizeBytes > 0
+//@   modifies s.settings, s.cliClient
+
+//@ func parseSettingsFromRaw
+//@   props C19
+//@   ensures [C19:normalized] result.Completion.MaxResults > 0 && result.Formatting.IndentSize > 0 && result.Limits.MaxIncludeDepth > 0 && result.Limits.MaxFileSizeBytes > 0
+//@   ensures [C19:nonobject_numbers] !typeis(raw, "map[string]interface{}") ==> result.Completion.MaxResults == ite(base.Completion.MaxResults <= 0, 50, base.Completion.MaxResults) && result.Formatting.IndentSize == ite(base.Formatting.IndentSize <= 0, 4, base.Formatting.IndentSize)
+//@   ensures [C19:nonobject_switches] !typeis(raw, "map[string]interface{}") ==> result.Features == base.Features && result.Diagnostics == base.Diagnostics && result.Completion.FuzzyMatching == base.Completion.FuzzyMatching && result.Formatting.AlignAmounts == base.Formatting.AlignAmounts
+
+//@ func (*Server).refreshConfiguration
+//@   props C19
+//@   requires s != nil && s.settings.Completion.MaxResults > 0 && s.settings.Formatting.IndentSize > 0
+//@   ensures [C19:refresh_nonobject] len(result) > 0 && !typeis(result[0], "map[string]interface{}") ==> s.settings.Completion.MaxResults == old(s.settings.Completion.MaxResults) && s.settings.Formatting.IndentSize == old(s.settings.Formatting.IndentSize) && s.settings.Features == old(s.settings.Features) && s.settings.Diagnostics == old(s.settings.Diagnostics)
+//@   ensures [C19:refresh_unsupported] !old(s.supportsConfiguration) ==> s.settings == old(s.settings)
+//@   modifies s.settings, s.cliClient
